@@ -58,7 +58,7 @@ Definition world0 : world :=
 Definition cfg0 (fi fs_ : bool) (faults : list nat) : pcfg :=
   {| pc_reader := {| c_recursive := true; c_mask := WATCHDOG_ALL; c_root := Rt; c_fix_ignored := fi;
                      c_fix_movein := true; c_fix_simulate := fs_;
-                     c_fix_moveout := fi && fs_;      (* the pinned configurations also pin the code before the repair of F10 *)
+                     c_fix_relabel := true; c_fix_moveout := fi && fs_;      (* the pinned configurations also pin the code before the repair of F10 *)
                      c_faults := faults |};
      pc_full := false; pc_filter := None; pc_delay := 4 |}.
 
